@@ -150,6 +150,13 @@ def _check_jumps(case):
                                                    f"(exactly at the threshold: {ties})"))
         if tg is not None:
             viols.append(Viol("detectPitchErrors-tg", "a textgrid was returned although none was passed"))
+        # the same track as rows of (time, pitch, intensity) - what loadTimeSeriesData / extractPI return for a pitch-and-intensity listing and
+        # what the library's own example script passes on: the extra column changes nothing
+        st3, res3, _ = call(pi.detectPitchErrors, [(t, v, 60.0 + k) for k, (t, v) in enumerate(pl)], thr)
+        cnt += 1
+        if st3 == "exc" or [p[0] for p in res3[0]] != got:
+            viols.append(Viol("detectPitchErrors-wide-rows", f"series {seq} threshold {thr}: with rows of (time, pitch, intensity) the result is "
+                                                             f"{res3 if st3 == 'exc' else [p[0] for p in res3[0]]!r}, with rows of (time, pitch) {got}"))
     # with a textgrid to mark
     tgm = Textgrid(0, 1)
     tgm.addTier(IT("w", [(0, 1, "a")], 0, 1))
